@@ -508,6 +508,22 @@ impl World {
                 self.handles.insert(h, Arc::new(Mutex::new(Some(o))));
                 Ok(())
             }
+            "rehome" => {
+                // a new frozen heap that allocates nothing: it only forwards the reference
+                let i = s["i"].as_u64().unwrap_or(0);
+                let slot = self.handles.get(&h).ok_or("harness: no handle")?.clone();
+                let new: Owned = {
+                    let guard = slot.lock().unwrap();
+                    let o = guard.as_ref().ok_or("handle empty")?;
+                    starlark::values::OwnedFrozen::build(
+                        starlark::values::FrozenHeapName::user(format!("fwd{}", k)),
+                        |heap| o.as_ref().add_to_frozen_heap(heap).unpack_frozen().unwrap().to_value(),
+                    )
+                };
+                self.ptr2k.insert(new.owner().verif_id(), k);
+                self.handles.insert(i, Arc::new(Mutex::new(Some(new))));
+                Ok(())
+            }
             "globals_from_module" => {
                 let fm = self.frozen(f)?;
                 let g = self.build_globals(k, how, |b| {
